@@ -45,7 +45,9 @@ def main():
     for i, (g0, n) in enumerate(sp["writes"]):
         g = np.arange(g0, g0 + n, dtype=np.int64)
         a = val(g, sp["dtype"]).astype(sp["dtype"])
-        if nsub > 1:
+        if sp.get("is_complex"):
+            a = np.stack([a, a], axis=1)          # (n, 2) = real, imaginary parts; nsub is 1 for these
+        elif nsub > 1:
             a = np.repeat(a[:, None], nsub, axis=1)
         mark("begin-write%d" % i)
         try:
